@@ -3,8 +3,8 @@
 SPEC = {
     "pkg": "c15",
     "tests": [
-        {"name": "TestScenarioExecution", "quick": 800, "thorough": 64000, "shards_quick": 16, "shards_thorough": 16, "timeout": 3000},
-        {"name": "TestNextAcrossInstances", "quick": 320, "thorough": 32000, "shards_quick": 8, "shards_thorough": 16, "timeout": 3000},
+        {"name": "TestScenarioExecution", "quick": 800, "thorough": 48000, "shards_quick": 16, "shards_thorough": 16, "timeout": 3000},
+        {"name": "TestNextAcrossInstances", "quick": 320, "thorough": 24000, "shards_quick": 8, "shards_thorough": 16, "timeout": 3000},
         {"name": "TestKnownWitness", "quick": 1, "thorough": 1, "shards": 1, "timeout": 300},
     ],
     "rule": ("rapid-generated scenario programs (internal/sceninterp.Program: every templated string is a list of literal parts and "
@@ -32,6 +32,7 @@ SPEC = {
                "TestScenarioExecution/scenarios_ge_2": 0.25, "TestScenarioExecution/weights_gcd_gt_1": 0.03,
                "TestScenarioExecution/next_used": 0.3, "TestScenarioExecution/next_wrapped": 0.15,
                "TestScenarioExecution/non2xx_without_assert_continues": 0.05,
+               "TestScenarioExecution/header_named_url_or_body": 0.03,
                "TestNextAcrossInstances/next_wrapped": 0.25, "TestNextAcrossInstances/invocations_interleaved_at_target": 0.2,
                "TestNextAcrossInstances/instances_4": 0.1},
     "manifest": {
